@@ -9,6 +9,16 @@ CHECKS = {
    "Every pattern up to 3 (quick) / 5 (thorough) symbols over the 12-symbol pattern alphabet is run against every subject up to 4 symbols over the 7-symbol subject alphabet in all four modes, plus a fixed block for classes, multi-byte runes and regexp metacharacters and all ordered pairs of short patterns; each call is compared with an independent backtracking matcher. Complete within the stated alphabet and bounds, nothing sampled.",
    "Trusts the reference matcher (patmodel.go); patterns POSIX leaves undefined may fail or agree with the model; longer patterns / other characters are outside the bound.",
    "DESIGN.md §6 C12, §4.3"),
+ "C14": ("model_checking",
+   "bounded-exhaustive enumeration of segment words × IFS settings against a reference splitter",
+   "Every word of up to 6 (quick) / 7 (thorough) segments over the 8 segment kinds of the statement, under 7 IFS settings and 3 realisations (literal parts, parameter expansions, single quotes), is expanded by the real Expand and compared with a splitter written from the statement. Complete within those bounds.",
+   "Trusts the reference splitter (c14Ref); words are built as AST values with NoGlob set; longer words and other IFS values are outside the bound.",
+   "DESIGN.md §6 C14, §4.2"),
+ "C11": ("model_checking",
+   "bounded-exhaustive enumeration of expression trees × environments against a reference evaluator",
+   "All expression trees of depth ≤ 1 over every operator and 16 operands under 64 variable environments in 4 layouts, plus every depth-1 tree in every depth-1 context (one-hole depth 2; thorough: complete depth 2 for binary/logical roots over 4 operands), are evaluated by the real Eval and compared (value, error/no error, variable store) with a tree-walking int64 evaluator; expressions C leaves undefined are detected and excluded. Complete within those bounds.",
+   "Trusts the reference evaluator; which of several errors is reported is not compared; for unsequenced operators any operand evaluation order is accepted; schedule dependence of Eval is C06's subject.",
+   "DESIGN.md §6 C11, §4.4"),
 }
 
 def main():
